@@ -169,6 +169,11 @@ def constructed(rng):
                     if abs(w * P10[s]) <= M:
                         out.append("cmpall vv %s %s" % (G.fD(w * P10[s], s), G.fI(ty, v)))
                         out.append("cmpall vv %s %s" % (G.fI(ty, v), G.fD(w * P10[s], s)))
+    # operands at floor(T / 10^k) +- 2 for every primitive-type maximum T, aligned by exactly 10^k
+    for x, y in G.threshold_pairs(rng):
+        out.append("cmpall vv %s %s" % (G.fD(*x), G.fD(*y)))
+        if rng.random() < 0.3:
+            out.append("minmax %s %s" % (G.fD(*x), G.fD(*y)))
     # equal values in every representation
     for _ in range(60):
         c, s = G.dec(rng)
